@@ -18,6 +18,7 @@ def run(model, rep, tier):
     r5_status_plumbing(ctx, rep)
     c07.r5_channel_separation(ctx, rep, R='C02.R6')
     r7_discovery_contains_user_code(ctx, rep)
+    c07.r10_report_only_after_completed_run(ctx, rep, R='C02.R8')
     rep.units['cfg'] = ctx.cfg_stats
 
 
